@@ -71,7 +71,7 @@ static CO_ERR COTSyncCycleWrite(struct CO_OBJ_T *obj, struct CO_NODE_T *node, vo
 
     result  = CO_ERR_NONE;
     sync    = &node->Sync;
-    nus     = *(uint32_t *)buffer;
+    CO_BUF_GET(nus, buffer);
     ous     = 0;
 
     /*
